@@ -109,9 +109,9 @@ def configs(args, tier, rnd, feature_args=()):
 
 def jobs(tier, seed):
     js = []
-    for ep in ("mf", "fair", "fairw", "moment", "lagrangian", "gs", "to"):
+    for ep in ("mf", "mf2", "fair", "fairw", "moment", "lagrangian", "gs", "to"):
         js.append({"id": f"{ep}-containers", "kind": "containers", "entry": ep, "seed": seed})
-        if ep != "fairw":
+        if ep not in ("fairw", "mf2"):
             js.append({"id": f"{ep}-perm", "kind": "perm", "entry": ep, "seed": seed})
     return js
 
@@ -155,6 +155,41 @@ def ep_mf(v, a):
     import fairlearn.metrics as fm
 
     mf = fm.MetricFrame(metrics=_metric, y_true=a["t"], y_pred=a["p"], sensitive_features=a["sf"], control_features=a["cf"], sample_params={"s": a["s"]})
+    out = _flat_frame(mf.by_group, "by_group")
+    out.update(_flat_frame(mf.overall, "overall"))
+    return out
+
+
+SF2 = ["p", "q", "p", "q"]
+
+
+def wrap2(cols, kind, pattern, rnd):
+    """two feature columns in one container; 'dict_series' carries one index pattern PER COLUMN ('p1+p2')"""
+    names = ["fa", "fb"]
+    if kind == "array2d":
+        return np.array(list(zip(*cols)), dtype=object)
+    if kind == "dataframe":
+        return pd.DataFrame({n: list(c) for n, c in zip(names, cols)}, index=_index(pattern, N, rnd))
+    if kind == "dict_arrays":
+        return {n: np.array(list(c), dtype=object) for n, c in zip(names, cols)}
+    if kind == "dict_lists":
+        return {n: list(c) for n, c in zip(names, cols)}
+    if kind == "dict_series":
+        pats = pattern.split("+")
+        return {n: pd.Series(list(c), index=_index(pats[i % len(pats)], N, rnd), name=n) for i, (n, c) in enumerate(zip(names, cols))}
+    raise ValueError(kind)
+
+
+MF2_CONFIGS = ([("array2d", "default")] + [("dataframe", p) for p in INDEX_PATTERNS] + [("dict_arrays", "default"), ("dict_lists", "default")]
+               + [("dict_series", p) for p in INDEX_PATTERNS]
+               + [("dict_series", p) for p in ("default+reversed", "reversed+default", "shuffled+strings", "offset+default", "equal+default", "reversed+shuffled")])
+
+
+def ep_mf2(v, a):
+    """two sensitive features handed over in ONE container (2-D array / DataFrame / dict of arrays, lists or Series)"""
+    import fairlearn.metrics as fm
+
+    mf = fm.MetricFrame(metrics=_metric, y_true=v["t"], y_pred=v["p"], sensitive_features=a["sf2"], sample_params={"s": v["s"]})
     out = _flat_frame(mf.by_group, "by_group")
     out.update(_flat_frame(mf.overall, "overall"))
     return out
@@ -237,6 +272,7 @@ def ep_fairw(v, a):
 EPS = {
     "fairw": (ep_fairw, ["y", "cw", "sf"], ("sf",)),
     "mf": (ep_mf, ["t", "p", "s", "sf", "cf"], ("sf", "cf")),
+    "mf2": (ep_mf2, ["sf2"], ()),
     "fair": (ep_fair, ["y", "yp", "w", "sf"], ("sf",)),
     "moment": (ep_moment, ["y", "sf", "cf"], ()),
     "lagrangian": (ep_lagrangian, ["y", "sf"], ()),
@@ -248,7 +284,7 @@ EPS = {
 def _values(ep):
     """symbolic row values shared by baseline and variants"""
     v = {}
-    if ep == "mf":
+    if ep in ("mf", "mf2"):
         v["t"] = [real(f"t{i}") for i in range(N)]
         v["p"] = [real(f"p{i}") for i in range(N)]
         v["s"] = [real(f"s{i}") for i in range(N)]
@@ -278,6 +314,9 @@ def _args(ep, v, cfg, rnd, perm=None, rename=None):
     for k, (kind, pat) in cfg.items():
         if k == "X":
             continue
+        if k == "sf2":
+            a[k] = wrap2([P(sf), P(SF2)], kind, pat, rnd)
+            continue
         a[k] = wrap(raw[k], kind, pat, rnd, name=k)
     if "cf" not in cfg:
         a.setdefault("cf", None)
@@ -295,7 +334,7 @@ def run_job(job, deadline):
     rnd = random.Random(job["seed"])
     tier = "quick"
     if job["kind"] == "containers":
-        cfgs = configs(argnames, tier, rnd, feats)
+        cfgs = configs(argnames, tier, rnd, feats) if ep != "mf2" else [{"sf2": c} for c in MF2_CONFIGS]
         if ep in ("moment", "lagrangian", "gs", "to"):
             extra = []
             for pat in INDEX_PATTERNS[1:]:
@@ -411,7 +450,7 @@ def replay(cex):
     gs.DummyClassifier = Recorder
     f = lambda k, d: float(F(mdl[k])) if k in mdl else d
     v = {}
-    if ep == "mf":
+    if ep in ("mf", "mf2"):
         v = {"t": [float(2 ** (i + 1)) for i in range(N)], "p": [float(3 ** (i + 1)) for i in range(N)], "s": [float(5 ** (i + 1)) for i in range(N)]}
         global _metric
         saved = _metric
@@ -430,7 +469,7 @@ def replay(cex):
     else:
         v = {"scores": [f(f"s{i}", 0.2 * (i + 1)) for i in range(N)]}
     try:
-        base_cfg = {a: ("list", "default") for a in argnames}
+        base_cfg = {a: ("list", "default") for a in argnames} if ep != "mf2" else {"sf2": MF2_CONFIGS[0]}
         r2 = random.Random(job["seed"] + 1)
         b = fn(v, _args(ep, v, base_cfg, r2))
         bad = []
@@ -465,7 +504,7 @@ def replay(cex):
             bad = [i for i in range(N) if not _close(b[f"p{perm[i]}"], x[f"p{i}"])]
         return {"reproduced": bool(bad), "detail": f"permutation {perm}: differing {bad}"[:500]}
     finally:
-        if ep == "mf":
+        if ep in ("mf", "mf2"):
             globals()["_metric"] = _metric_backup
 
 
